@@ -40,7 +40,7 @@ def tree_hash(d, skip=('target', 'kani_', 'out', '.lock')):
     for root, dirs, files in os.walk(d):
         dirs[:] = sorted(x for x in dirs if x != 'target')
         for fn in sorted(files):
-            if fn.startswith('kani_') or fn.endswith('.json') and root == d or fn.endswith('.log'):
+            if fn.startswith('kani_') or fn.endswith('.json') and root == d or fn.endswith('.log') or fn.endswith('.tmp') or fn in ('.lock', 'log.txt', 'log_all.txt', 'v.txt', 'cbmc_cmd.sh'):
                 continue
             p = os.path.join(root, fn)
             h.update(os.path.relpath(p, d).encode())
@@ -63,56 +63,91 @@ def run_kani_unit(unit_name, gen, cfg, harness_filter, tier, use_cache=True, job
     """Generate the crate, run the selected harnesses (content-addressed cache)."""
     outdir = os.path.join(WORK, cfg, unit_name)
     os.makedirs(outdir, exist_ok=True)
+    # Short critical section: (re)generate the crate.  Files are only rewritten when their content
+    # changes, so concurrent checks that share this unit never see a half-written source file and
+    # cargo does not rebuild for nothing.  The proofs themselves run OUTSIDE the lock, each
+    # invocation with its own target directory, so checks of different properties do not queue.
     lock = open(os.path.join(outdir, '.lock'), 'w')
     fcntl.flock(lock, fcntl.LOCK_EX)
     try:
+        import shutil
+        import tempfile
+        tmp = tempfile.mkdtemp(prefix='gen_', dir=os.path.join(WORK, cfg))
         try:
-            info = gen(repo or REPO, outdir)
-        except AnchorLost as e:
-            raise Undecided('extraction anchor lost in unit %s: %s' % (unit_name, e))
-        prefix = info.get('prefix', '')
-        all_h = [h['name'] for h in info['harnesses']]
-        sel = [h for h in all_h if harness_filter(h)]
-        if not sel:
-            raise Undecided('no harness selected in unit %s' % unit_name)
+            try:
+                info = gen(repo or REPO, tmp)
+            except AnchorLost as e:
+                raise Undecided('extraction anchor lost in unit %s: %s' % (unit_name, e))
+            for root, dirs, files in os.walk(tmp):
+                rel = os.path.relpath(root, tmp)
+                os.makedirs(os.path.join(outdir, rel), exist_ok=True)
+                for fn in files:
+                    src = os.path.join(root, fn)
+                    dst = os.path.join(outdir, rel, fn)
+                    with open(src, 'rb') as f:
+                        data = f.read()
+                    old = None
+                    if os.path.exists(dst):
+                        with open(dst, 'rb') as f:
+                            old = f.read()
+                    if old != data:
+                        with open(dst + '.tmp', 'wb') as f:
+                            f.write(data)
+                        os.replace(dst + '.tmp', dst)
+        finally:
+            shutil.rmtree(tmp, ignore_errors=True)
         th = tree_hash(outdir)
-        cache_dir = os.path.join(WORK, 'cache')
-        os.makedirs(cache_dir, exist_ok=True)
-        results, todo, hits = {}, [], 0
-        for h in sel:
-            key = hashlib.sha256((th + '|' + h + '|' + ' '.join(kani.KANI_FLAGS)).encode()).hexdigest()
-            cp = os.path.join(cache_dir, key + '.json')
-            if use_cache and os.path.exists(cp):
+    finally:
+        fcntl.flock(lock, fcntl.LOCK_UN)
+        lock.close()
+    prefix = info.get('prefix', '')
+    all_h = [h['name'] for h in info['harnesses']]
+    sel = [h for h in all_h if harness_filter(h)]
+    if not sel:
+        raise Undecided('no harness selected in unit %s' % unit_name)
+    cache_dir = os.path.join(WORK, 'cache')
+    os.makedirs(cache_dir, exist_ok=True)
+    results, todo, hits = {}, [], 0
+    for h in sel:
+        key = hashlib.sha256((th + '|' + h + '|' + ' '.join(kani.KANI_FLAGS)).encode()).hexdigest()
+        cp = os.path.join(cache_dir, key + '.json')
+        if use_cache and os.path.exists(cp):
+            try:
                 with open(cp) as f:
                     results[h] = json.load(f)
                 results[h]['cached'] = True
                 hits += 1
-            else:
-                todo.append((h, cp))
-        meta = dict(cache_hits=hits, ran=len(todo), cmd=None, wall=0.0, tree_hash=th)
-        if todo:
-            try:
-                r = kani.run(outdir, [h for h, _ in todo], jobs=jobs, prefix=prefix,
-                             harness_timeout=info.get('harness_timeout', 900), tag=unit_name)
-            except kani.ToolFailure as e:
-                raise Undecided(str(e))
-            meta.update(cmd=r['cmd'], wall=r['wall'], tools=r['tools'], log=r['log'])
-            for h, cp in todo:
-                if h not in r['results']:
-                    raise Undecided('harness %s produced no result (see %s)' % (h, r['log']))
-                res = r['results'][h]
-                res['cached'] = False
-                results[h] = res
-                # only cache decided results (a timeout is not a result)
-                if res['status'] in ('Success', 'Failure') and not timed_out(res):
-                    with open(cp, 'w') as f:
-                        json.dump(res, f)
-        if meta['cmd'] is None:
-            meta['cmd'] = 'cargo kani %s --harness <...>  (all %d results re-used from the content-addressed cache: identical generated text)' % (' '.join(kani.KANI_FLAGS), hits)
-        return UnitRun(unit_name, info, results, meta)
-    finally:
-        fcntl.flock(lock, fcntl.LOCK_UN)
-        lock.close()
+                continue
+            except ValueError:
+                pass
+        todo.append((h, cp))
+    meta = dict(cache_hits=hits, ran=len(todo), cmd=None, wall=0.0, tree_hash=th)
+    if todo:
+        tag = '%s_%d' % (unit_name, os.getpid())
+        try:
+            r = kani.run(outdir, [h for h, _ in todo], jobs=jobs, prefix=prefix,
+                         harness_timeout=info.get('harness_timeout', 900), tag=tag,
+                         extra=['--target-dir', os.path.join(WORK, cfg, 'target_' + tag)])
+        except kani.ToolFailure as e:
+            raise Undecided(str(e))
+        finally:
+            import shutil
+            shutil.rmtree(os.path.join(WORK, cfg, 'target_' + tag), ignore_errors=True)
+        meta.update(cmd=r['cmd'], wall=r['wall'], tools=r['tools'], log=r['log'])
+        for h, cp in todo:
+            if h not in r['results']:
+                raise Undecided('harness %s produced no result (see %s)' % (h, r['log']))
+            res = r['results'][h]
+            res['cached'] = False
+            results[h] = res
+            # only cache decided results (a timeout is not a result)
+            if res['status'] in ('Success', 'Failure') and not timed_out(res):
+                with open(cp + '.%d.tmp' % os.getpid(), 'w') as f:
+                    json.dump(res, f)
+                os.replace(cp + '.%d.tmp' % os.getpid(), cp)
+    if meta['cmd'] is None:
+        meta['cmd'] = 'cargo kani %s --harness <...>  (all %d results re-used from the content-addressed cache: identical generated text)' % (' '.join(kani.KANI_FLAGS), hits)
+    return UnitRun(unit_name, info, results, meta)
 
 
 def timed_out(res):
